@@ -60,30 +60,65 @@ pub fn eval(expr: Node) -> Result<i64, Box<dyn error::Error>> {
         Number(i) => Ok(i),
         And(expr1, expr2) => Ok(eval(*expr1)? & eval(*expr2)?),
         Or(expr1, expr2) => Ok(eval(*expr1)? | eval(*expr2)?),
-        LeftShift(expr1, expr2) => Ok(eval(*expr1)? << eval(*expr2)?),
-        RightShift(expr1, expr2) => Ok(eval(*expr1)? >> eval(*expr2)?),
-        Add(expr1, expr2) => Ok(eval(*expr1)? + eval(*expr2)?),
-        Subtract(expr1, expr2) => Ok(eval(*expr1)? - eval(*expr2)?),
-        Multiply(expr1, expr2) => Ok(eval(*expr1)? * eval(*expr2)?),
-        Divide(expr1, expr2) => Ok(eval(*expr1)? / eval(*expr2)?),
-        Modulo(expr1, expr2) => Ok(eval(*expr1)? % eval(*expr2)?),
-        Negative(expr1) => Ok(-(eval(*expr1)?)),
-        Pow(expr1, expr2) => Ok(eval(*expr1)?.pow(eval(*expr2)? as u32)),
+        LeftShift(expr1, expr2) => {
+            let value = eval(*expr1)?;
+            let count = eval(*expr2)?;
+            if !(0..64).contains(&count) {
+                return Err("Shift count out of range".into());
+            }
+            Ok(value << count)
+        }
+        RightShift(expr1, expr2) => {
+            let value = eval(*expr1)?;
+            let count = eval(*expr2)?;
+            if !(0..64).contains(&count) {
+                return Err("Shift count out of range".into());
+            }
+            Ok(value >> count)
+        }
+        Add(expr1, expr2) => Ok(eval(*expr1)?
+            .checked_add(eval(*expr2)?)
+            .ok_or("Integer overflow")?),
+        Subtract(expr1, expr2) => Ok(eval(*expr1)?
+            .checked_sub(eval(*expr2)?)
+            .ok_or("Integer overflow")?),
+        Multiply(expr1, expr2) => Ok(eval(*expr1)?
+            .checked_mul(eval(*expr2)?)
+            .ok_or("Integer overflow")?),
+        Divide(expr1, expr2) => Ok(eval(*expr1)?
+            .checked_div(eval(*expr2)?)
+            .ok_or("Division by zero or integer overflow")?),
+        Modulo(expr1, expr2) => {
+            let dividend = eval(*expr1)?;
+            let divisor = eval(*expr2)?;
+            if divisor == 0 {
+                return Err("Division by zero".into());
+            }
+            Ok(dividend.wrapping_rem(divisor))
+        }
+        Negative(expr1) => Ok(eval(*expr1)?.checked_neg().ok_or("Integer overflow")?),
+        Pow(expr1, expr2) => {
+            let base = eval(*expr1)?;
+            let exponent = u32::try_from(eval(*expr2)?).map_err(|_| "Exponent out of range")?;
+            Ok(base.checked_pow(exponent).ok_or("Integer overflow")?)
+        }
         Factorial(sub_expr) => {
             let sub_result = eval(*sub_expr)?;
             if sub_result >= 0 {
-                let mut factorial_result = 1;
+                let mut factorial_result: i64 = 1;
                 for i in 2..=(sub_result as usize) {
                     #[cfg(feature = "verif_hooks")]
                     crate::verif_hooks::tick_loop();
-                    factorial_result *= i as i64;
+                    factorial_result = factorial_result
+                        .checked_mul(i as i64)
+                        .ok_or("Integer overflow")?;
                 }
                 Ok(factorial_result)
             } else {
                 Ok(0)
             }
         }
-        Abs(sub_expr) => Ok(eval(*sub_expr)?.abs()),
+        Abs(sub_expr) => Ok(eval(*sub_expr)?.checked_abs().ok_or("Integer overflow")?),
         Sqrt(sub_expr) => {
             let before_sqr = eval(*sub_expr)? as f64;
             Ok(before_sqr.sqrt() as i64)
@@ -107,6 +142,8 @@ pub fn eval(expr: Node) -> Result<i64, Box<dyn error::Error>> {
             let result = eval(*sub_expr)?;
             if result < 0 {
                 Ok(0)
+            } else if result >= 63 {
+                Err("Integer overflow".into())
             } else {
                 Ok(1 << result)
             }
